@@ -20,7 +20,7 @@ RULE = (
     "A C14 tree (placeholder files) plus one real channel 'real' (RF recording with gaps and its 'metadata' Digital "
     "Metadata channel, written by the real writers) is built; Hypothesis draws a command in {cp, mv, ln, ln "
     "--symbolic} with -c channel lists (none / one / comma list / repeated), --only, -R, -s/-e as ISO strings, "
-    "float stamps or '+offset', the include flags, and the destination on the same or on another file system, run through digital_rf.drf_command.main. Oracle: the relative "
+    "float stamps or '+offset', the include flags, and the destination on the same or on another file system, the source optionally reached through a symbolic link, optionally two new files arriving in the source after the first or the last transfer, run through digital_rf.drf_command.main. Oracle: the relative "
     "paths of lsdrf(src, same options) on the pristine tree; the destination must hold exactly that set (plus parent "
     "directories only), byte-identical / same inode / symlink to the source; cp and ln leave the source snapshot "
     "unchanged, mv removes exactly the transferred files; when the real channel's properties and data files were "
@@ -92,6 +92,9 @@ def _cases(draw, tier):
     case["tfmt"] = draw(st.sampled_from(["iso", "float", "plus"]))
     # destination on another file system (rename cannot be used; hard links are impossible there)
     case["xdev"] = case["cmd"] != "ln" and draw(st.integers(0, 3)) == 0
+    # the source may be reached through a symbolic link, and a live recorder may add files while the command runs
+    case["symlink"] = draw(st.integers(0, 4)) == 0
+    case["arrive"] = draw(st.sampled_from([None, None, None, "first", "last", "last"]))
     case["drf"] = draw(st.sampled_from([True, True, True, False]))
     case["dmd"] = draw(st.sampled_from([True, True, True, False]))
     case["drfprops"] = draw(st.sampled_from([None, None, True, False]))
@@ -213,10 +216,46 @@ def _run_case(case):
                 lo, hi = rfmodel.window(REAL_CFG, ms)
                 real_reads[f] = (lo, hi - 1, [(int(k), np.ascontiguousarray(v).tobytes()) for k, v in rd.read(lo, hi - 1, "real").items()])
             rd.close()
-        argv = argv_for(case, src, dest)
+        src_cmd = src
+        if case.get("symlink"):
+            os.symlink(top, os.path.join(base, "linked"))
+            src_cmd = os.path.join(base, "linked" + case["src"][3:])
+            res.cls("symlinked-source")
+        argv = argv_for(case, src_cmd, dest)
+        arrivals = {}
+        counter = [0]
+        real_fns = {"copy2": shutil.copy2, "move": shutil.move, "link": os.link, "symlink": os.symlink}
+
+        def arrive():
+            d_ = os.path.join(top, "real", L.subdir_name(REAL_T0 + 100))
+            os.makedirs(d_, exist_ok=True)
+            for i_ in range(2):
+                p_ = os.path.join(d_, "rf@%d.000.h5" % (REAL_T0 + 100 + i_))
+                with open(p_, "wb") as f_:
+                    f_.write(b"arrival-%d" % i_)
+                arrivals[os.path.relpath(p_, top)] = treeutil.snapshot(d_)[os.path.basename(p_)]
+
+        def wrap(name):
+            fn = real_fns[name]
+
+            def w_(*a, **k):
+                r_ = fn(*a, **k)
+                counter[0] += 1
+                if not arrivals and ((case.get("arrive") == "first" and counter[0] == 1)
+                                     or (case.get("arrive") == "last" and counter[0] == len(expected))):
+                    arrive()
+                return r_
+            return w_
+
+        if case.get("arrive") and expected:
+            shutil.copy2, shutil.move, os.link, os.symlink = wrap("copy2"), wrap("move"), wrap("link"), wrap("symlink")
+            res.cls("files-arrive-during-command")
         try:
             with contextlib.redirect_stdout(io.StringIO()), contextlib.redirect_stderr(io.StringIO()):
-                drf_command.main(argv)
+                try:
+                    drf_command.main(argv)
+                finally:
+                    shutil.copy2, shutil.move, os.link, os.symlink = real_fns["copy2"], real_fns["move"], real_fns["link"], real_fns["symlink"]
         except SystemExit as e:
             res.fail("command-exit", "argv %r exit %r" % (argv[:1] + argv[3:], e.code))
             return res
@@ -229,12 +268,20 @@ def _run_case(case):
         got_dirs = {os.path.join(out_root, k) for k, v in after_dest.items() if v[0] == "d"}
         missing = set(expected) - got_files
         extra = got_files - set(expected)
+        # files that arrived while the command ran may or may not have been transferred
+        arr_dest = {}
+        for rel_ in arrivals:
+            for s_, d_ in pairs:
+                ap = os.path.join(top, rel_)
+                if ap.startswith(s_ + os.sep):
+                    arr_dest[os.path.join(d_, os.path.relpath(ap, s_))] = rel_
+        extra -= set(arr_dest)
         if missing:
             res.fail("dest-missing:" + case["cmd"], "%s (argv %r)" % (sorted(os.path.relpath(x, out_root) for x in missing)[:3], argv[3:]))
         if extra:
             res.fail("dest-extra:" + case["cmd"], "%s (argv %r)" % (sorted(os.path.relpath(x, out_root) for x in extra)[:3], argv[3:]))
         need_dirs = set()
-        for f in expected:
+        for f in list(expected) + [a_ for a_ in arr_dest if a_ in got_files]:
             d = os.path.dirname(f)
             while len(d) > len(out_root):
                 need_dirs.add(d)
@@ -261,6 +308,18 @@ def _run_case(case):
                     break
         # source
         after = treeutil.snapshot(top)
+        if arrivals:
+            # nothing may be lost: an arrived file is still in the source, or identical in the destination
+            for rel_, meta_ in arrivals.items():
+                in_src = files_of(after).get(rel_, (None,))[:3] == meta_[:3]
+                dps = [d_ for d_, r_ in arr_dest.items() if r_ == rel_ and d_ in got_files]
+                in_dst = any(treeutil.snapshot(os.path.dirname(d_)).get(os.path.basename(d_), (None,))[:3] == meta_[:3] or
+                             os.path.islink(d_) for d_ in dps)
+                if not in_src and not in_dst:
+                    res.fail("arrived-file-lost:" + case["cmd"], "%s is neither in the source nor in the destination" % rel_)
+                if case["cmd"] != "mv" and not in_src:
+                    res.fail("source-changed:" + case["cmd"], "arrived file %s removed from the source" % rel_)
+            after = {k: v for k, v in after.items() if k not in arrivals and not (v[0] == "d" and k == os.path.dirname(next(iter(arrivals))))}
         if case["cmd"] == "mv":
             moved = {os.path.relpath(s, top) for s in expected.values()}
             want = {k: v for k, v in files_of(before).items() if k not in moved}
@@ -302,7 +361,9 @@ def run_case(case):
 
 def shrink_candidates(case):
     for key, val in (("chs", None), ("only", False), ("reverse", False), ("start", None), ("end", None), ("drfprops", None),
-                     ("dmdprops", None), ("tfmt", "iso"), ("drf", True), ("dmd", True), ("xdev", False)):
+                     ("dmdprops", None), ("tfmt", "iso"), ("drf", True), ("dmd", True), ("xdev", False), ("symlink", False), ("arrive", None)):
+        if key not in case:
+            continue
         if case[key] != val:
             yield dict(case, **{key: val})
     tree = case["tree"]
